@@ -383,6 +383,31 @@ fn hdr_case(tier: Tier, mut i: u64, e: End) -> Vec<u8> {
     b
 }
 
+/// "consistent lies": the file-size word agrees with the (untrue) data size / pointer count /
+/// label count, so a parser that validates the totals against the DECLARED size only is fooled
+const HDRC_COUNTS: [u32; 7] = [0, 1, 2, 0x1000, 0x1000_0000, 0x3FFF_FFFF, 0xFFFF_FFFF];
+const HDRC_LENS: [usize; 3] = [32, 36, 64];
+fn hdrc_count() -> u64 {
+    (hdr_values(Tier::Thorough).len() * HDRC_COUNTS.len() * HDRC_COUNTS.len() * HDRC_LENS.len()) as u64
+}
+fn hdrc_case(mut i: u64, e: End) -> Vec<u8> {
+    let vals = hdr_values(Tier::Thorough);
+    let len = HDRC_LENS[(i % HDRC_LENS.len() as u64) as usize];
+    i /= HDRC_LENS.len() as u64;
+    let n = HDRC_COUNTS[(i % 7) as usize];
+    i /= 7;
+    let p = HDRC_COUNTS[(i % 7) as usize];
+    i /= 7;
+    let d = vals[(i % vals.len() as u64) as usize];
+    let total = d.wrapping_add(p.wrapping_mul(4)).wrapping_add(n.wrapping_mul(8)).wrapping_add(0x20);
+    let mut b = vec![0u8; len];
+    b[0..4].copy_from_slice(&e.u32(total));
+    b[4..8].copy_from_slice(&e.u32(d));
+    b[8..12].copy_from_slice(&e.u32(p));
+    b[12..16].copy_from_slice(&e.u32(n));
+    b
+}
+
 // pack header families
 fn pack_small_count() -> u64 {
     1 + 256 + 65536
@@ -503,6 +528,13 @@ fn run_case(tier: Tier, tag: &str, idx: u64, t: &mut Tally) {
             t.nontrivial += 1;
             judge(entry, &bytes, "a 32-byte file of header words", case, t);
         }
+        "hdrc" => {
+            let entry = ENTRIES[a];
+            let e = entry.bin_endian().unwrap_or(End::Little);
+            let bytes = hdrc_case(idx, e);
+            t.nontrivial += 1;
+            judge(entry, &bytes, "a header whose file-size word agrees with its (untrue) totals", case, t);
+        }
         "packsmall" => {
             let bytes = pack_small(idx);
             judge(Entry::Pack, &bytes, "a 0..2 byte buffer", case, t);
@@ -528,6 +560,7 @@ fn families(tier: Tier) -> Vec<Family> {
     for (ei, e) in ENTRIES.iter().enumerate() {
         if *e != Entry::Pack {
             f.push(Family::new(format!("hdr:{}", ei), hdr_count(tier)));
+            f.push(Family::new(format!("hdrc:{}", ei), hdrc_count()));
         }
     }
     f.push(Family::new("packsmall", pack_small_count()));
@@ -563,7 +596,7 @@ fn explore(ctx: &Ctx) -> Outcome {
         let (kind, a, b) = parse_tag(&f.family);
         let entry = match kind.as_str() {
             "dev" => ENTRIES[b],
-            "hdr" => ENTRIES[a],
+            "hdr" | "hdrc" => ENTRIES[a],
             _ => Entry::Pack,
         };
         let (sig, summary) = isolate::describe_fatal(entry.short(), &f.status);
@@ -607,7 +640,7 @@ fn replay(ctx: &Ctx, case: &Value) -> Vec<Violation> {
                 let (kind, a, b) = parse_tag(&f.family);
                 let entry = match kind.as_str() {
                     "dev" => ENTRIES[b],
-                    "hdr" => ENTRIES[a],
+                    "hdr" | "hdrc" => ENTRIES[a],
                     _ => Entry::Pack,
                 };
                 let sig = sig.replace("replay", entry.short());
